@@ -518,7 +518,7 @@ def check_machine(prop, tier, seed, rep):
     spec = MACHINE[prop]
     if tier == "quick":
         builds = [(f, False) for f in spec["feats_quick"]]
-        nprog, chunk, budget_search = 2500, 1250, 200
+        nprog, chunk, budget_search = 10000, 2500, 300
     else:
         builds = [(f, r) for f in ALL_FEATS for r in (False, True)]
         nprog, chunk, budget_search = 12000, 3000, 1500
